@@ -59,6 +59,11 @@ def _numeric_composite(out):
             if k == 2 and c[1].u > 0:
                 # second difference of the combined value
                 extra += 16.0 * EPS * (c[0].e + abs(c[0].v)) / (NUM_H * NUM_H) / 2.0
+            if k + 2 < len(c):
+                # truncation error of the central difference applied to the combination: h^2 |F^(k+2)| / 24 in units
+                # of the k-th derivative (Taylor coefficient c[k+2] = F^(k+2) / (k+2)!)
+                hi = abs(c[k + 2].v) * fact * (k + 1) * (k + 2)
+                extra += (NUM_H * NUM_H * hi / (24.0 if k == 1 else 6.0)) / fact
             c[k] = EN(c[k].v, c[k].e, c[k].u + extra)
             changed = True
     return Jet(c) if changed else out
@@ -216,6 +221,12 @@ class Ref(object):
             c0 = c[0]
             u1 = 8.0 * EPS * c0.e / NUM_H + NUM_H * NUM_H * abs(full.d(3).v) / 24.0 + 4 * c0.u / NUM_H
             u1 += 4.0 * EPS * abs(c[1].v) + 1e-300    # never exactly 0: marks the component as numerically differentiated
+            trunc = NUM_H * NUM_H * abs(full.d(3).v) / 24.0
+            if trunc > 0.01 * abs(c[1].v) and trunc > 1e3 * 8.0 * EPS * c0.e / NUM_H:
+                # the function changes its slope appreciably WITHIN the stencil (sin(1/r^10) at r = 0.3: the phase
+                # advances by radians over h): the leading truncation term no longer bounds the error of the
+                # fallback and nothing can be predicted about its result
+                u1 = inf
             c[1] = EN(c[1].v, c[1].e, c[1].u + u1)
             if n >= 2:
                 # a numerical derivative of a numerical derivative (the documented fallback applied twice, h = 1e-6):
@@ -338,7 +349,7 @@ class Ref(object):
         out = _jconst(0.0, x.n)
         out.c[0] = co[0]
         pw = Jet.const(1.0, x.n)
-        for k in range(1, x.n + 1):
+        for k in range(1, min(x.n, 3) + 1):      # a cubic: derivatives beyond the third vanish inside a knot interval
             pw = pw * dx
             out = out + pw * co[k]
         return out
@@ -609,6 +620,12 @@ def evaluate(ref, pd, r, order=0, rerr=0.0):
     """(Jet, trace) of potdef at separation r.  rerr = rounding scale of r itself
     (in units of eps*|r|) when r is a computed grid position."""
     tr = Trace()
+    if order >= 1 and order < 4 and has_numeric_leaf(pd):
+        # numerically differentiated components: the truncation error of the fallback on a COMBINATION of them needs
+        # the combination's own higher derivatives, so the jets are carried two orders further and cut at the end
+        x = Jet.var(r, min(4, order + 2), e=rerr * abs(r))
+        out = ref.potdef(pd, x, tr)
+        return Jet(list(out.c[:order + 1])), tr
     x = Jet.var(r, order, e=rerr * abs(r))
     return ref.potdef(pd, x, tr), tr
 
